@@ -1274,6 +1274,13 @@ def breaking_edits(rng, src):
     out.append((src.rstrip("\r\n") + "\nloop(zz,%s)\n%s\nend loop\n" % (rng.choice(["0", "0x0", "00", "0b0"]), bad_body), "malformed statement inside the body of a loop with bound 0"))
     out.append((src.rstrip("\r\n") + "\n" + " ".join(["1"] * hdr_n) + "\r" + " ".join(["1"] * hdr_n) + "\n", "two rows separated by a lone CR (a CR is a blank, not a line break)"))
     out.append((src.rstrip("\r\n") + "\nloop(zz,1)\r" + " ".join(["1"] * hdr_n) + "\nend loop\n", "loop header followed by a lone CR instead of a line break"))
+    # a bare `end` as the very last token, with and without the final line break
+    out.append((src.rstrip("\r\n") + "\nend", "end at top level as the last token (no final newline)"))
+    out.append((src.rstrip("\r\n") + "\nend\n", "end at top level as the last token"))
+    out.append((src.rstrip("\r\n") + "\nloop(ee,2)\n" + " ".join(["1"] * ncols_of(lines[hdr_i])) + "\nend", "block closed by a bare end as the last token (no final newline)"))
+    # the same name declared twice with another declaration (or other statements) in between
+    out.append((src.rstrip("\r\n") + "\ndeclare TA = 1;\ndeclare TB = 2;\ndeclare TA = 3;\n", "duplicated declare name (another declare in between)"))
+    out.append((src.rstrip("\r\n") + "\ndeclare TA = 1;\ndeclare TB = 2;\ndeclare TC = 2;\nlet q9 = 1;\ndeclare TB = 3;\n", "duplicated declare name (two declares and a let in between)"))
     # a second statement on the line of a declare (a declaration ends its line like every other statement)
     out.append((src.rstrip("\r\n") + "\ndeclare SL = 1; " + rng.choice([" ".join(["0"] * hdr_n), "let sl2 = 2;", "resetRandom;", "declare SL2 = 2;"]) + "\n", "two statements on a line (after a declare)"))
     # a stray operator between two row entries: the entries are NOT glued into one expression
@@ -2885,3 +2892,186 @@ def c08_unary_chains(seed, tier):
 
 
 _extend("C08", c08_unary_chains, "plus chains of 2-8 unary operators over variables and boundary literals, with nested parentheses")
+
+
+def c08_algebra(seed, tier):
+    """shapes that invite an "algebraic simplification" which is wrong in wrapping 64-bit arithmetic or under the C precedence:
+    a leading unary operator before * / %, two operators with literal right operands in a row (x*L/M, x+L-M, x<<L>>M ...),
+    ite with literal branches and a non-boolean condition, x op x, neutral / absorbing elements, double unary operators -
+    each over pairs of boundary values; expected values from the Python oracle"""
+    X, Y = ("var", "x"), ("var", "y")
+    def n_(v):
+        return ("num", v)
+    def b_(op, l, r):
+        return ("bin", op, l, r)
+    def u_(op, e):
+        return ("un", op, e)
+    T = []
+    for uop in ("-", "~", "!"):
+        for op in ("*", "/", "%", "+", "-", "<<", ">>", "&", "|", "^", "<", "="):
+            T.append(("%sx%sy" % (uop, op), b_(op, u_(uop, X), Y)))
+    for (L, M) in [(2, 2), (8, 4), (6, 3), (4, 2), (3, 3), (10, 5), (2, 4), (1, 1), (63, 63), (3, 2), (64, 1), (7, 7)]:
+        T.append(("x*%d/%d" % (L, M), b_("/", b_("*", X, n_(L)), n_(M))))
+        T.append(("x*%d%%%d" % (L, M), b_("%", b_("*", X, n_(L)), n_(M))))
+        T.append(("x/%d*%d" % (L, M), b_("*", b_("/", X, n_(L)), n_(M))))
+        T.append(("x+%d-%d" % (L, M), b_("-", b_("+", X, n_(L)), n_(M))))
+        T.append(("x-%d+%d" % (L, M), b_("+", b_("-", X, n_(L)), n_(M))))
+        T.append(("x<<%d>>%d" % (L, M), b_(">>", b_("<<", X, n_(L)), n_(M))))
+        T.append(("x>>%d<<%d" % (L, M), b_("<<", b_(">>", X, n_(L)), n_(M))))
+        T.append(("x&%d|%d" % (L, M), b_("|", b_("&", X, n_(L)), n_(M))))
+        T.append(("x|%d&%d" % (L, M), b_("|", X, b_("&", n_(L), n_(M)))))
+        T.append(("x^%d^%d" % (L, M), b_("^", b_("^", X, n_(L)), n_(M))))
+        T.append(("x*%d*%d" % (L, M), b_("*", b_("*", X, n_(L)), n_(M))))
+    lits = [("0", 0), ("1", 1), ("2", 2), ("(0-1)", -1)]
+    for ct, ca in [("x", X), ("x&4", b_("&", X, n_(4))), ("x-y", b_("-", X, Y)), ("!x", u_("!", X)), ("x=y", b_("=", X, Y))]:
+        for (ta, va) in lits:
+            for (tb, vb) in lits:
+                ea = n_(va) if va >= 0 else b_("-", n_(0), n_(1))
+                eb = n_(vb) if vb >= 0 else b_("-", n_(0), n_(1))
+                T.append(("ite(%s,%s,%s)" % (ct, ta, tb), ("fn", "ite", [ca, ea, eb])))
+    T.append(("ite(x,1,0)+ite(y,1,0)", b_("+", ("fn", "ite", [X, n_(1), n_(0)]), ("fn", "ite", [Y, n_(1), n_(0)]))))
+    T.append(("ite(x,0,1)*ite(y,0,1)", b_("*", ("fn", "ite", [X, n_(0), n_(1)]), ("fn", "ite", [Y, n_(0), n_(1)]))))
+    for op in gen.BINOPS:
+        T.append(("x%sx" % op, b_(op, X, X)))
+    M1 = b_("-", n_(0), n_(1))
+    for (t_, e_) in [("x*0", b_("*", X, n_(0))), ("0*x", b_("*", n_(0), X)), ("x*1", b_("*", X, n_(1))), ("1*x", b_("*", n_(1), X)), ("x/1", b_("/", X, n_(1))),
+                     ("x%1", b_("%", X, n_(1))), ("x+0", b_("+", X, n_(0))), ("0+x", b_("+", n_(0), X)), ("0-x", b_("-", n_(0), X)), ("x-0", b_("-", X, n_(0))),
+                     ("x<<0", b_("<<", X, n_(0))), ("x>>0", b_(">>", X, n_(0))), ("x&0", b_("&", X, n_(0))), ("x|0", b_("|", X, n_(0))), ("x&(0-1)", b_("&", X, M1)),
+                     ("x|(0-1)", b_("|", X, M1)), ("x*(0-1)", b_("*", X, M1)), ("x/(0-1)", b_("/", X, M1)), ("x%(0-1)", b_("%", X, M1)), ("x*2", b_("*", X, n_(2))),
+                     ("x<<1", b_("<<", X, n_(1))), ("x/2", b_("/", X, n_(2))), ("x>>1", b_(">>", X, n_(1))), ("x%2", b_("%", X, n_(2))), ("x&1", b_("&", X, n_(1))),
+                     ("x<<64", b_("<<", X, n_(64))), ("x>>64", b_(">>", X, n_(64))), ("x<<63>>63", b_(">>", b_("<<", X, n_(63)), n_(63))), ("x^(0-1)", b_("^", X, M1)),
+                     ("--x", u_("-", u_("-", X))), ("!!x", u_("!", u_("!", X))), ("~~x", u_("~", u_("~", X))), ("-~x", u_("-", u_("~", X))), ("~-x", u_("~", u_("-", X))),
+                     ("!-x", u_("!", u_("-", X))), ("-!x", u_("-", u_("!", X))), ("!!!x", u_("!", u_("!", u_("!", X)))), ("x=!!x", b_("=", X, u_("!", u_("!", X)))),
+                     ("x+y-y", b_("-", b_("+", X, Y), Y)), ("x*y/y", b_("/", b_("*", X, Y), Y)), ("x-y+y", b_("+", b_("-", X, Y), Y)), ("x/y*y+x%y", b_("+", b_("*", b_("/", X, Y), Y), b_("%", X, Y)))]:
+        T.append((t_, e_))
+    MAXI = 2 ** 63 - 1
+    pairs = [(0, 1), (1, 0), (2, 3), (5, 2), (6, 4), (6, 6), (-1, 2), (-2, -1), (MAXI, 2), (MAXI, MAXI), (MIN64, 2), (MIN64, -1), (MIN64, 3), (MIN64, MIN64), (MIN64 + 1, 2),
+             (1 << 62, 2), ((1 << 62) + 1, 4), (-(1 << 62), 3), (3, MIN64), (7, MAXI), (1 << 32, 1 << 31), ((1 << 31) - 1, 1 << 33), (-7, 2), (7, -2), (-7, -2), (4, 64), (4, 65), (9, 63)]
+    if tier == "quick":
+        rng = random.Random(seed ^ 0xA18)
+        pairs = pairs[:6] + rng.sample(pairs[6:], 10)
+    sigs = [{"name": "A", "typ": "I", "bits": 1, "default": "0"}, {"name": "Q", "typ": "O", "bits": 8, "default": "-"}]
+    cases = []
+    for k, (xv, yv) in enumerate(pairs):
+        env = {"x": xv, "y": yv}
+        lines = ["A V", "declare V = Q;", "let x = %s;" % (str(xv) if xv >= 0 else lit64(xv)[1:-1]), "let y = %s;" % (str(yv) if yv >= 0 else lit64(yv)[1:-1])]
+        exp = []
+        for (t_, e_) in T:
+            try:
+                v = py_eval(e_, env)
+            except ZeroDivisionError:
+                continue
+            lines.append("0 (%s)" % t_)
+            exp.append(v)
+        cases.append({"id": "c08-alg-%d" % k, "kind": "run", "src": "\n".join(lines) + "\n", "sigs": sigs, "layout": [1], "table": [["1"]],
+                      "echo": 0, "wdefault": 0, "faults": [], "max": 100000, "seed": 1, "c08": exp})
+    return cases
+
+
+_extend("C08", c08_algebra, "plus shapes that invite a wrong algebraic simplification (leading unary before * / %, x*L/M and the like, ite with literal branches, x op x, neutral elements, double unary) over pairs of boundary values")
+
+
+def odd_width_cases(prefix):
+    """signals of width 0 and of widths above 64 (65, 100, 255) next to ordinary ones, as inputs, outputs and bidirectional,
+    with out-of-range / negative / boundary values, Z, C and X in the rows; run (both write_input variants) and static"""
+    cases = []
+    k = 0
+    rows = ["1 5 X X", "(0-1) (0-1) (0-1) X", "0x1FF 0x7FFFFFFFFFFFFFFF 3 X", "Z 2 X X", "1 Z X (Q)", "C 7 X X", "X 1 X X", "(1<<63) (1<<63) (1<<63) X", "bits(2,3) X X"]
+    loop = ["loop(i,3)", "(i) (i*3) (i) X", "end loop"]
+    for wa in (0, 1, 65, 100, 255):
+        for wq in (0, 8, 64, 65):
+            sigs = [{"name": "A", "typ": "I", "bits": wa, "default": "0"}, {"name": "B", "typ": "B" if k % 2 else "I", "bits": 4 if wa else 0, "default": "Z" if k % 3 == 0 else "1"},
+                    {"name": "Q", "typ": "O", "bits": wq, "default": "-"}, {"name": "R", "typ": "O", "bits": 65 if wq == 8 else 3, "default": "-"}]
+            hdr = "A B Q R"
+            src = hdr + "\n" + "\n".join(rows + loop) + "\n"
+            table = [["3", "1"], ["255", "0"], ["-1", "7"], ["Z", "X"], ["9223372036854775807", "2"]]
+            for kind in ("run", "static"):
+                cases.append({"id": "%s-width-%d-%d-%s" % (prefix, wa, wq, kind), "kind": kind, "src": src if kind == "run" else src.replace("(Q)", "X"), "sigs": [dict(s_) for s_ in sigs],
+                              "layout": [2, 3], "table": table, "echo": 0, "wdefault": k % 2, "faults": [], "max": 60, "seed": 1 + k, "cont": 1})
+            k += 1
+    return cases
+
+
+for _p in ("C02", "C03", "C06", "C07", "C10", "C13"):
+    _extend(_p, (lambda pref: (lambda seed, tier: odd_width_cases(pref)))(_p.lower()), "plus signals of width 0 and of widths 65 / 100 / 255 (inputs, outputs, bidirectional) with out-of-range values, Z, C, X")
+
+
+def c14_round8_cases(seed, tier):
+    """(a) the ONLY bindings of the program are inside while bodies, and shadow an output a declared signal reads;
+    (b) a declared signal named <bidirectional>_out, in and not in the header; (c) a 64-bit output reporting i64::MIN,
+    i64::MIN + 1, i64::MAX, -1 read by a declared signal and by row expressions"""
+    cases = []
+    k = 0
+    for prog in (["while(!Q)", "let Q = 2;", "(Q) X X X", "end while", "(1) X X X"],
+                 ["while(Q < 3)", "let Q = Q + 1;", "(Q) X X X", "end while"],
+                 ["loop(i,1)", "while(!R)", "let R = 5;", "(R) X X X", "end while", "end loop", "(2) X X X"]):
+        for decl in ("Q + R + 100", "ite(Q, 7, R)"):
+            sigs = [{"name": "A", "typ": "I", "bits": 8, "default": "0"}, {"name": "Q", "typ": "O", "bits": 8, "default": "-"}, {"name": "R", "typ": "O", "bits": 8, "default": "-"}]
+            cases.append({"id": "c14-whileonly-%d" % k, "kind": "run", "src": "\n".join(["A Q R V", "declare V = %s;" % decl] + prog) + "\n", "sigs": sigs, "layout": [1, 2],
+                          "table": [["0", "0"]], "echo": 0, "wdefault": k % 2, "faults": [], "max": 30, "seed": 1 + k, "cont": 0})
+            k += 1
+    for in_hdr in (True, False):
+        for typ in ("B", "I"):
+            sigs = [{"name": "D", "typ": typ, "bits": 4, "default": "Z" if typ == "B" else "0"}, {"name": "Q", "typ": "O", "bits": 8, "default": "-"}]
+            hdr = "D Q" + (" D_out" if in_hdr else "")
+            rows = ["1 X" + (" 5" if in_hdr else ""), "Z X" + (" (Q+1)" if in_hdr else ""), "2 (Q)" + (" X" if in_hdr else "")]
+            for lay in ([1], [0, 1]):
+                cases.append({"id": "c14-declout-%d" % k, "kind": "run", "src": "\n".join([hdr, "declare D_out = Q + 1;"] + rows) + "\n", "sigs": [dict(s_) for s_ in sigs], "layout": lay,
+                              "table": [["4"] * len(lay), ["9"] * len(lay)], "echo": 0, "wdefault": 0, "faults": [], "max": 30, "seed": 1 + k, "cont": 1})
+                k += 1
+    for v in (str(MIN64), str(MIN64 + 1), str(2 ** 63 - 1), "-1", str(MIN64 + 2)):
+        sigs = [{"name": "A", "typ": "I", "bits": 64, "default": "0"}, {"name": "Q", "typ": "O", "bits": 64, "default": "-"}, {"name": "P", "typ": "B", "bits": 64, "default": "Z"}]
+        src = "A Q P_out V W\ndeclare V = Q;\ndeclare W = P + 0;\n(Q) X X X X\nlet m = Q;\n(m+1) (Q) (P) (Q) (P)\n"
+        cases.append({"id": "c14-min-%d" % k, "kind": "run", "src": src, "sigs": sigs, "layout": [1, 2], "table": [[v, v]], "echo": 0, "wdefault": 0, "faults": [], "max": 30, "seed": 1 + k, "cont": 1})
+        k += 1
+    return cases
+
+
+for _p in ("C14", "C04", "C11"):
+    _extend(_p, c14_round8_cases, "plus: bindings only inside while bodies that shadow an output a declared signal reads; a declared signal named <bidirectional>_out; 64-bit outputs reporting i64::MIN / MIN+1 / MAX / -1")
+
+
+def c11_declare_in_loop_cases(seed, tier):
+    """a declare INSIDE a loop / while body whose expression mentions a name that is a variable of an enclosing scope, the
+    loop's own counter, a name bound later, an output, an input, or nothing at all: a declaration never sees variables"""
+    cases = []
+    k = 0
+    for wrap in (["loop(i,2)", "%s", "end loop"], ["let w = 0;", "while(w < 1)", "%s", "let w = w + 1;", "end while"], ["loop(i,1)", "loop(j,1)", "%s", "end loop", "end loop"], ["%s"]):
+        for nm_ in ("k", "i", "later", "Q", "A", "nosuch", "n"):
+            body = [l if l != "%s" else "declare V = %s + 1;" % nm_ for l in wrap]
+            src = "\n".join(["A Q V", "let k = 1;"] + body + ["let later = 2;", "1 X X", "repeat(2) 0 X X"]) + "\n"
+            sigs = [{"name": "A", "typ": "I", "bits": 4, "default": "0"}, {"name": "Q", "typ": "O", "bits": 8, "default": "-"}]
+            cases.append({"id": "c11-declloop-%d" % k, "kind": "run", "src": src, "sigs": sigs, "layout": [1], "table": [["3"]], "echo": 0, "wdefault": 0, "faults": [], "max": 20,
+                          "seed": 1 + k, "cont": 0, "c11": "declare inside a block mentions %s" % nm_})
+            cases.append({"id": "c11-declloop-%d-s" % k, "kind": "static", "src": src, "sigs": sigs, "layout": [], "table": [], "echo": 0, "wdefault": 0, "faults": [], "max": 20, "seed": 1 + k})
+            k += 1
+    return cases
+
+
+for _p in ("C11", "C14", "C15"):
+    _extend(_p, c11_declare_in_loop_cases, "plus declares inside loop / while bodies that mention enclosing variables, the loop counter, later bindings, outputs, inputs, unknown names (dynamic and static)")
+
+
+def c07_z_then_wide_cases(seed, tier):
+    """a row that releases one input (Z) and drives later inputs with numbers that do not fit, in every order of the signals"""
+    cases = []
+    k = 0
+    import itertools
+    for order in itertools.permutations(range(3)):
+        names = ["A", "B", "C"]
+        sigs_all = [{"name": "A", "typ": "I", "bits": 3, "default": "0"}, {"name": "B", "typ": "B", "bits": 4, "default": "Z"}, {"name": "C", "typ": "I", "bits": 2, "default": "1"}]
+        sigs = [sigs_all[i] for i in order] + [{"name": "Q", "typ": "O", "bits": 5, "default": "-"}]
+        for hdr_order in (["A", "B", "C", "Q"], ["C", "Q", "B", "A"]):
+            rowvals = {"A": ["Z", "0xFF", "(0-1)", "Z"], "B": ["0x1F", "Z", "Z", "(1<<10)"], "C": ["7", "255", "Z", "Z"], "Q": ["X", "0xFFF", "(0-1)", "33"]}
+            rows = [" ".join(rowvals[h][r] for h in hdr_order) for r in range(4)]
+            cases.append({"id": "c07-zwide-%d" % k, "kind": "run", "src": " ".join(hdr_order) + "\n" + "\n".join(rows) + "\n", "sigs": [dict(s_) for s_ in sigs], "layout": [3], "table": [["31"]],
+                          "echo": 0, "wdefault": k % 2, "faults": [], "max": 20, "seed": 1 + k, "cont": 0})
+            cases.append({"id": "c07-zwide-%d-s" % k, "kind": "static", "src": " ".join(hdr_order) + "\n" + "\n".join(rows) + "\n", "sigs": [dict(s_) for s_ in sigs], "layout": [], "table": [],
+                          "echo": 0, "wdefault": 0, "faults": [], "max": 20, "seed": 1 + k})
+            k += 1
+    return cases
+
+
+_extend("C07", c07_z_then_wide_cases, "plus rows that release one input (Z) and drive later ones with numbers that do not fit, in every signal order")
+_extend("C18", c14_loop_shadow_cases, "plus loops whose counter / n / body lets are named like an output pin (vars() after the loop)")
+_extend("C03", (lambda seed, tier: degenerate_list_cases("c03")), "plus degenerate signal lists (only outputs, only inputs, one signal)")
